@@ -201,6 +201,7 @@ const preamble = `(set-option :produce-models true)
 (declare-fun subref (Int Int) Int)
 (declare-fun sub-base (Int) Int)
 (declare-fun sub-idx (Int) Int)
+(declare-fun chancap (Int) Int)
 (define-fun nil-iface () Iface (mk-iface 0 0))
 (define-fun nil-slice () Slice (mk-slice 0 0 0 0))
 `
